@@ -295,7 +295,7 @@ def run(tier, seed):
             c08_gen.run(v, wd, reports, tier, seed, stats)
         if broken:
             # failing-input search: the enlarged box (more seeds, all optimisation levels) on the configurations the broken theorems are about
-            found = len(v.violations) > before or bool(v.known_hits)
+            found = len(v.violations) > before        # (known findings do not count: they fail on the unchanged tree too)
             if not found:
                 cfgs = sorted(set(ops_of_theorem(b)[0] or "avx2" for b in broken))
                 p2 = [(c, o, t, a) for (c, o, t, a) in thorough_plan() if c in cfgs and (a in NATIVE[c] or t == "kernels")]
